@@ -20,6 +20,9 @@ use vstd::std_specs::cmp::OrdSpec;
 //@map /\bRevocationKey\b/ => VxKeyWrap
 //@map /\bDelayedPaymentKey\b/ => VxKeyWrap
 //@map /chan_utils::get_revokeable_redeemscript/ => vx_get_revokeable_redeemscript
+//@map /Option<Address>/ => Option<VxAddress>
+//@map /Vec<HTLCInfo>/ => Vec<VxHTLCInfo>
+//@map /bitcoin::Transaction/ => Transaction
 verus! {
 
 //@@TAGS
@@ -29,6 +32,7 @@ verus! {
 //@include frag/channel_spec.rs
 //@include frag/channel_trusted.rs
 //@include frag/channel_recovery_trusted.rs
+//@include frag/channel_decoder_trusted.rs
 
 impl Channel {
 
@@ -222,6 +226,56 @@ impl Channel {
             lemma_msat_fit_multiset(offered_htlcs@, info2.offered_htlcs@);
             lemma_msat_fit_multiset(received_htlcs@, info2.received_htlcs@);
         }
+//@end
+
+//@fn vls-core/src/channel.rs :: impl Channel :: make_validated_recomposed_holder_commitment_tx props=C01,C02
+    requires
+        commitment_number <= INITIAL_COMMITMENT_NUMBER, chan_wf(*self),
+        htlcs_msat_fit(offered_htlcs@), htlcs_msat_fit(received_htlcs@),
+    ensures
+        // the transaction handed on is the one rebuilt from the channel's own keys and setup and the validated content ...
+        r.is_ok() ==> !r->Ok_0.1.is_counterparty_broadcaster && r->Ok_0.1.feerate_per_kw == feerate_per_kw
+            && r->Ok_0.1.offered_htlcs@.to_multiset() == offered_htlcs@.to_multiset() && r->Ok_0.1.offered_htlcs@.len() == offered_htlcs@.len()
+            && r->Ok_0.1.received_htlcs@.to_multiset() == received_htlcs@.to_multiset() && r->Ok_0.1.received_htlcs@.len() == received_htlcs@.len()
+            && r->Ok_0.0 == holder_ctx_spec(self.keys, self.setup, commitment_number, *txkeys, feerate_per_kw,
+                r->Ok_0.1.to_broadcaster_value_sat, r->Ok_0.1.to_countersigner_value_sat,
+                oic_spec(r->Ok_0.1.offered_htlcs@, r->Ok_0.1.received_htlcs@)),                              //[C01.phase1.rebuilt-from-own-keys]
+        // ... and, under a strict filter, the supplied transaction is exactly that one
+        r.is_ok() && vx_strict(T_policy_commitment) ==> ctx_built_tx(r->Ok_0.0) == *tx,                    //[C01.phase1.raw-equals-canonical]
+        // what the validator guaranteed about the numbers (shared contract of validate_holder_commitment_tx)
+        r.is_ok() && vx_strict(T_policy_commitment_spends_active_utxo) && commitment_number == self.enforcement_state.next_holder_commit_num
+            ==> !self.enforcement_state.channel_closed,
+        r.is_ok() && vx_strict(T_policy_commitment_holder_not_revoked) ==> commitment_number + 2 > self.enforcement_state.next_holder_commit_num,
+        r.is_ok() && vx_strict(T_policy_commitment_retry_same) && commitment_number + 1 == self.enforcement_state.next_holder_commit_num
+            ==> self.enforcement_state.current_holder_commit_info == Some(r->Ok_0.1),
+//@proof before /let htlcs = Self::htlcs_info2_to_oic/
+        proof {
+            lemma_msat_fit_multiset(offered_htlcs@, info2.offered_htlcs@);
+            lemma_msat_fit_multiset(received_htlcs@, info2.received_htlcs@);
+        }
+//@end
+
+//@fn vls-core/src/channel.rs :: impl Channel :: validate_holder_commitment_tx props=C01,C02,C10,C11
+    requires
+        commitment_number <= INITIAL_COMMITMENT_NUMBER, chan_wf(*old(self)), hc_inv(*old(self)),
+        htlcs_msat_fit(offered_htlcs@), htlcs_msat_fit(received_htlcs@),
+    ensures
+        chan_static_eq(*final(self), *old(self)), hc_inv(*final(self)),                               //[C01.validate-holder-raw.keeps-inv]
+        final(self).enforcement_state == (EnforcementState {
+            next_holder_commit_info: final(self).enforcement_state.next_holder_commit_info, ..old(self).enforcement_state }),   //[C10.validate-holder-raw.frame]
+        final(self).enforcement_state.next_holder_commit_info != old(self).enforcement_state.next_holder_commit_info ==>
+            r.is_ok() && commitment_number == old(self).enforcement_state.next_holder_commit_num,    //[C01.validate-holder-raw.only-next]
+        r.is_ok() && vx_strict(T_policy_commitment_spends_active_utxo) && old(self).enforcement_state.channel_closed ==>
+            final(self).enforcement_state.next_holder_commit_info == old(self).enforcement_state.next_holder_commit_info,   //[C02.validate-holder-raw.closed-no-new-state]
+        // a refused request leaves no trace (in particular no stored successor that a later revocation could promote)
+        r.is_err() ==> final(self).enforcement_state == old(self).enforcement_state
+            && final(self).persisted == old(self).persisted,                                          //[C10.validate-holder-raw.err-frame]
+        r.is_ok() ==> final(self).persisted@ == final(self).enforcement_state,                        //[C11.validate-holder-raw.persisted]
+//@proof after /let counterparty_signatures = CommitmentSignatures\(/
+            proof {
+                assert(counterparty_signatures.1@ =~= counterparty_htlc_sigs@);
+                assert(counterparty_signatures.0 == *counterparty_commit_sig);
+            }
 //@end
 
 //@fn vls-core/src/channel.rs :: impl Channel :: sign_holder_commitment_tx_phase2 props=C02,C10,C11
